@@ -1488,7 +1488,11 @@ impl KotoVm {
                         );
                     };
 
-                    let end = if inclusive { end + 1 } else { end };
+                    let end = if inclusive {
+                        end.saturating_add(1)
+                    } else {
+                        end
+                    };
                     end + index as i64
                 } else {
                     let Some(start) = r.start() else {
